@@ -336,7 +336,7 @@ def sched_check(ctx, oracle, profiles, nontrivial, witnesses=(), rule=''):
     for p in profiles:
         for i in range(per):
             cases.append({'seed': '%d:%s:%d' % (ctx.seed, p, i), 'nev': nev, 'profile': p,
-                          'nalg': 6 if i % 3 else 8})
+                          'nalg': 6 if i % 3 else 8, 'shape': 'fan' if i % 2 else 'random'})
     results = []
     nmis = 0
     for k in range(0, len(cases), 120):
